@@ -57,6 +57,8 @@ type sessionSpec struct {
 	DaemonReq *daemonReqSpec `json:"daemon_req,omitempty"`
 	// a hand-written receiving client against a real daemon (kind = "pullraw")
 	PullRaw *pullRawSpec `json:"pull_raw,omitempty"`
+	// a scripted, mutated peer (kind = "hostile2")
+	Hostile2 *hostile2Spec `json:"hostile2,omitempty"`
 }
 
 type sessionResult struct {
@@ -160,6 +162,14 @@ func runSessionInProcess(sp sessionSpec) (res sessionResult) {
 	res.ID = sp.ID
 	if sp.Kind == "parse" {
 		res.Parse, res.Outcome = parseObservable(sp.Args), "ok"
+		return res
+	}
+	if sp.Kind == "hostile2" {
+		if err := runHostile2(sp, &res); err != nil {
+			res.Err, res.Outcome = err.Error(), "error"
+		} else {
+			res.Outcome = "ok"
+		}
 		return res
 	}
 	if sp.Kind == "pullraw" {
